@@ -7,6 +7,7 @@ var checks = map[string]checkDef{
 	"C06": {Harness: "c06", Instrument: true},
 	"C02": {Harness: "c02", Instrument: true},
 	"C05": {Harness: "c05", Instrument: true},
+	"C07": {Harness: "c07", Instrument: true},
 	"C08": {Harness: "c08", Instrument: true},
 	"C10": {Harness: "c10", Instrument: true},
 	"C03": {Harness: "c03", Instrument: true},
